@@ -10,7 +10,7 @@
 From Coq Require Import Permutation.
 From TauModel Require Import Base Num Oracles Syntax Value Yaml Pratt ParseMap Solver Rule Keys Optimiser Known.
 From TauModel Require Scope Scope2.
-From TauProofs Require C01 C01_matrix_nested.
+From TauProofs Require C01 C01_matrix C01_matrix_nested C01_scope3.
 
 (* the matrix pass alone: truth is preserved when multi-cell rows occur only in positive
    positions (D17), comparisons read their fields, and the tree holds no quantifier *)
@@ -43,3 +43,27 @@ Theorem scope_nested_all_sound : forall o ic ord sw y r (d : doc),
 Proof. exact C01_matrix_nested.scope_nested_all_sound. Qed.
 Check scope_nested_all_sound.
 Print Assumptions scope_nested_all_sound.
+
+(* stronger where it applies: without multi-cell rows the matrix pass is three-valued exact, nested
+   blocks allowed *)
+Theorem matrix_exact_nested : forall o ord fuel e e' (d : doc),
+  (forall l, Permutation (ord l) l) ->
+  wf_body e = true -> C01.cmp_leaves e = true ->
+  Scope.cmp_reads e = true -> Scope.no_match e = true ->
+  C01_matrix.no_multi_cell ord e = true ->
+  matrix ord fuel e = Ok e' ->
+  solve_body o e' (pure_doc d) = solve_body o e (pure_doc d).
+Proof. exact C01_matrix_nested.matrix_exact_nested. Qed.
+Check matrix_exact_nested.
+Print Assumptions matrix_exact_nested.
+
+(* the scope as defined in Model/Scope2.v (what the runner evaluates), at the crate's own map order *)
+From TauModel Require Order.
+Theorem crate_order_scope_nested_all_sound : forall o ic sw y r (d : doc),
+  C01.H_strip o ->
+  load_rule o ic y = Ok r -> r_optimised r = false ->
+  Scope2.c01_scope_nested_all o Order.rust_ord sw (r_det r) = true ->
+  exists r', optimise o Order.rust_ord sw r = Ok r' /\ matches o r' d = matches o r d.
+Proof. exact C01_scope3.crate_order_scope_nested_all_sound. Qed.
+Check crate_order_scope_nested_all_sound.
+Print Assumptions crate_order_scope_nested_all_sound.
